@@ -105,6 +105,20 @@ theorem takeReg_spec {m m' : Mem} {i : Nat} (h : takeReg m = .ok (m', i)) :
       have := activate_spec hm1
       exact ⟨this.1, this.2.1, this.2.2.2.2.2.2.2, this.2.2.2.2.2.1⟩
 
+theorem takeAt_spec {m m' : Mem} {rg : Option Nat} {i : Nat} (h : takeAt m rg = .ok (m', i)) :
+    m.active.getD i true = false ∧ m'.active = m.active.set i true ∧ m'.handles = m.handles
+    ∧ m'.arrLens = m.arrLens := by
+  cases rg with
+  | none => exact takeReg_spec h
+  | some j =>
+    simp only [takeAt] at h
+    split at h
+    · cases h
+    · rename_i m1 h1
+      cases h
+      have := activate_spec h1
+      exact ⟨this.1, this.2.1, this.2.2.2.2.2.2.2, this.2.2.2.2.2.1⟩
+
 /-- release of a register that was taken from `a` and is still flagged: back to `a` -/
 theorem release_after_take {m m' : Mem} {a : List Bool} {i : Nat}
     (hfree : a.getD i true = false) (hact : m.active = a.set i true)
@@ -429,8 +443,8 @@ def Completed : Host → Prop
   | .addF _ _ _ => True
   | .addR _ _ _ => True
   | .ifc _ _ _ _ body => Completed body
-  | .loop _ _ _ body => Completed body
-  | .loopBody _ _ _ body => Completed body
+  | .loop _ _ _ _ body => Completed body
+  | .loopBody _ _ _ _ body => Completed body
   | .foreach _ _ body => Completed body
   | .loopUntil _ body _ _ cl => Completed body ∧ Completed cl
   | .tryUntil _ body => Completed body
@@ -439,9 +453,10 @@ theorem bindHandle_active (m : Mem) (r : Reg) (b : Bool) : (bindHandle m r b).ac
 
 /-- shared shape of `loop`, `loopBody`, `foreach`: take, body, labels, release -/
 theorem loopShape_active {m m1 m2 m4 : Mem} {i : Nat} {s e d : Int} {r : Reg} {cs : List PCmd} {b : Bool}
-    (h1 : takeReg m = .ok (m1, i)) (hb : m2.active = (bindHandle m1 (R i) b).active)
+    {rg : Option Nat}
+    (h1 : takeAt m rg = .ok (m1, i)) (hb : m2.active = (bindHandle m1 (R i) b).active)
     (h4 : release (buildLoop m2 s e d r cs).1 i = .ok m4) : m4.active = m.active := by
-  have s1 := takeReg_spec h1
+  have s1 := takeAt_spec h1
   exact release_after_take s1.1 (by rw [buildLoop_active, hb, bindHandle_active, s1.2.1]) h4
 
 theorem emit_active : ∀ (op : Host) (m m' : Mem) (cs : List PCmd),
@@ -481,7 +496,7 @@ theorem emit_active : ∀ (op : Host) (m m' : Mem) (cs : List PCmd),
     · cases h
     · rename_i m1 bc h1
       rw [buildCondition_active h, ih _ _ _ hc h1]
-  | loop s e d body ih =>
+  | loop rg s e d body ih =>
     intro m m' cs hc h
     simp only [emit] at h
     split at h
@@ -495,7 +510,7 @@ theorem emit_active : ∀ (op : Host) (m m' : Mem) (cs : List PCmd),
         · rename_i m4 h4
           cases h
           exact loopShape_active h1 (ih _ _ _ hc h2) h4
-  | loopBody s e d body ih =>
+  | loopBody rg s e d body ih =>
     intro m m' cs hc h
     simp only [emit] at h
     split at h
@@ -524,7 +539,7 @@ theorem emit_active : ∀ (op : Host) (m m' : Mem) (cs : List PCmd),
           · cases h
           · rename_i m4 h4
             cases h
-            exact loopShape_active h1 (ih _ _ _ hc h2) h4
+            exact loopShape_active (rg := none) h1 (ih _ _ _ hc h2) h4
   | loopUntil n body ef ev cl ihb ihc =>
     intro m m' cs hc h
     simp only [emit] at h
@@ -673,8 +688,8 @@ def need : Host → Nat
   | .addF f o _ => 1 + max f.depth o.addNeed
   | .addR _ o _ => o.addNeed
   | .ifc _ c a b body => max (need body) (if c.unary then a.tmp else a.tmp + b.tmp)
-  | .loop _ _ _ body => 1 + need body
-  | .loopBody _ _ _ body => 1 + need body
+  | .loop _ _ _ _ body => 1 + need body
+  | .loopBody _ _ _ _ body => 1 + need body
   | .foreach _ _ body => 1 + need body
   | .loopUntil _ body ef _ cl => 1 + max (need body) (max ef.tmp (need cl))
   | .tryUntil _ body => need body
@@ -721,6 +736,11 @@ theorem handle_noReg (m : Mem) (h : Nat) : NoReg (handle m h) := by
 theorem free_after_take {m m1 : Mem} {i : Nat} (h : takeReg m = .ok (m1, i)) :
     free m1.active + 1 = free m.active := by
   have := takeReg_spec h
+  rw [this.2.1]; exact free_set_true _ _ this.1
+
+theorem free_after_takeAt {m m1 : Mem} {rg : Option Nat} {i : Nat} (h : takeAt m rg = .ok (m1, i)) :
+    free m1.active + 1 = free m.active := by
+  have := takeAt_spec h
   rw [this.2.1]; exact free_set_true _ _ this.1
 
 theorem free_after_activate {m m1 : Mem} {i : Nat} (h : activate m i = .ok m1) :
@@ -954,11 +974,23 @@ theorem emitQop_noReg (m : Mem) (g : List Nat) (tgt : MTgt) (h : tgt.need ≤ fr
 theorem arrLen_noReg (m : Mem) (a : Nat) : NoReg (arrLen m a) := by
   intro e he; unfold arrLen at he; split at he <;> cases he; simp
 
+theorem takeAt_noReg (m : Mem) (rg : Option Nat) (h : 0 < free m.active) : NoReg (takeAt m rg) := by
+  cases rg with
+  | none =>
+    obtain ⟨m', i, hi⟩ := takeReg_ok h
+    show NoReg (takeReg m)
+    rw [hi]; exact NoReg.ok _
+  | some j =>
+    simp only [takeAt]
+    split
+    · rename_i e he; exact NoReg.err (activate_noReg _ _ _ he)
+    · exact NoReg.ok _
+
 /-- shared shape of `loop`, `loopBody`, `foreach` -/
-theorem loopShape_noReg {m : Mem} {body : Host} {s e d : Int} {b : Bool}
+theorem loopShape_noReg {m : Mem} {body : Host} {s e d : Int} {b : Bool} {rg : Option Nat}
     (ih : ∀ m, need body ≤ free m.active → NoReg (emit m body))
     (h : 1 + need body ≤ free m.active) :
-    NoReg (match takeReg m with
+    NoReg (match takeAt m rg with
       | .error e => (.error e : Except BuildError (Mem × List PCmd))
       | .ok (m1, i) =>
         match emit (bindHandle m1 (R i) b) body with
@@ -968,15 +1000,18 @@ theorem loopShape_noReg {m : Mem} {body : Host} {s e d : Int} {b : Bool}
           match release m3 i with
           | .error e => .error e
           | .ok m4 => .ok (m4, out)) := by
-  obtain ⟨m1, i, h1⟩ := takeReg_ok (m := m) (by omega)
-  rw [h1]; simp only
-  have f1 := free_after_take h1
   split
   · rename_i e he
-    exact NoReg.err (ih _ (by rw [bindHandle_active]; omega) _ he)
-  · split
-    · rename_i e he; exact NoReg.err (release_noReg _ _ _ he)
-    · exact NoReg.ok _
+    exact NoReg.err (takeAt_noReg m rg (by omega) _ he)
+  · rename_i m1 i h1
+    have f1 := free_after_takeAt h1
+    split
+    · rename_i e he
+      exact NoReg.err (ih _ (by rw [bindHandle_active]; omega) _ he)
+    · simp only
+      split
+      · rename_i e he; exact NoReg.err (release_noReg _ _ _ he)
+      · exact NoReg.ok _
 
 theorem emit_noReg : ∀ (op : Host) (m : Mem), Completed op → need op ≤ free m.active →
     NoReg (emit m op) := by
@@ -1011,11 +1046,11 @@ theorem emit_noReg : ∀ (op : Host) (m : Mem), Completed op → need op ≤ fre
     · rename_i m1 cs h1
       have a1 := emit_active body _ _ _ hc h1
       exact buildCondition_noReg _ _ _ _ _ (by rw [a1]; omega)
-  | loop s e d body ih =>
+  | loop rg s e d body ih =>
     intro m hc h
     simp only [emit]
     exact loopShape_noReg (fun m hm => ih m hc hm) h
-  | loopBody s e d body ih =>
+  | loopBody rg s e d body ih =>
     intro m hc h
     simp only [emit]
     exact loopShape_noReg (fun m hm => ih m hc hm) h
@@ -1024,7 +1059,7 @@ theorem emit_noReg : ∀ (op : Host) (m : Mem), Completed op → need op ≤ fre
     simp only [emit]
     split
     · rename_i e he; exact NoReg.err (arrLen_noReg _ _ _ he)
-    · exact loopShape_noReg (fun m hm => ih m hc hm) h
+    · exact loopShape_noReg (rg := none) (fun m hm => ih m hc hm) h
   | loopUntil n body ef ev cl ihb ihc =>
     intro m hc h
     simp only [need] at h
